@@ -15,6 +15,8 @@ OBLIGATION_MSGS = [
     ("postcondition not satisfied", "postcondition"),
     ("precondition not satisfied", "precondition"),
     ("fails to satisfy `callee.requires(args)`", "precondition"),
+    ("unable to prove post-condition of closure", "postcondition"),
+    ("unable to prove pre-condition of closure", "precondition"),
     ("invariant not satisfied", "invariant"),
     ("assertion failed", "assertion"),
     ("possible arithmetic underflow/overflow", "overflow"),
